@@ -24,7 +24,7 @@ Section AbfObject.
          (s_rel s0) (s_started s0) (s_japp s0) (s_tfok s0).
 
   (* the protocol of ResumeModel has no run boundary inside a process *)
-  Definition no_boundary (i : @abf_in T) : @abf_in T := mkIn (i_x i) (i_e i) (i_o i) (i_j i) false (i_apply i).
+  Definition no_boundary (i : @abf_in T) : @abf_in T := mkIn (i_x i) (i_e i) (i_o i) (i_j i) false (i_apply i) (i_w i).
 
   Definition abf_machine : machine (@abf_cfg T) (@abf_state T) (@abf_in T) (@abf_out T) abf_saved :=
     mkMachine (abf_init O)
@@ -39,14 +39,14 @@ Section AbfObject.
      i.e. the lagged convention of the C04 model with the spring force in the place of the engine's force.
      The CZAR estimator's own grids (z_samples, z_gradient) are not modelled. *)
   Definition eabf_bin (c : ObjectsModel.xcfg (T:=T)) (s : ObjectsModel.xstate (T:=T)) : @abf_in T :=
-    mkIn [ObjectsModel.xs_xr s] [ObjectsModel.x_fsys O c s] [n0 O] [n0 O] false true.
+    mkIn [ObjectsModel.xs_xr s] [ObjectsModel.x_fsys O c s] [n0 O] [n0 O] false true [n0 O].
   Definition eabf_force (o : @abf_out T) : T := hd (n0 O) (o_f o).
   Definition eabf_machine :=
     ObjectsModel.extlag_machine O abf_machine eabf_force eabf_bin.
 
   (* names used by the other C03 files *)
   Definition abf_in_t : Type := @abf_in T.
-  Definition abf_input (xs e o j : list T) (apply : bool) : abf_in_t := mkIn xs e o j false apply.
+  Definition abf_input (xs e o j : list T) (apply : bool) : abf_in_t := mkIn xs e o j false apply (map (fun _ => n0 O) xs).
   Definition abf_same_step (c : @abf_cfg T) : bool := c_same_step c.
   Definition abf_reported_total_force (c : @abf_cfg T) (s : @abf_state T) (i : @abf_in T) : list T :=
     o_tf (snd (abf_step O c s (no_boundary i))).
